@@ -13,6 +13,7 @@ pub fn run(which: &str) {
         "c08_redeemers" => crate::c08::run(),
         "c09_data" => crate::c08::run_c09(),
         "c17_collide" => c17_collide(),
+        "c01_dropped" => crate::c08::run_c01(),
         "c03_foreign" => c03_foreign(),
         _ => panic!("unknown scenario {which}"),
     }
